@@ -155,7 +155,7 @@ static void zoo_weights(struct zoo_w *w, const char *prop)
 		w->w_post = 45;
 	} else if (!strcmp(prop, "C09")) {
 		w->nloops_max = 2; w->ndrv_max = 3; w->nraw = 4; w->nevent = 1; w->nfd = 1; w->ntimer = 1; w->ntask = 1;
-		w->w_post = 45; w->faults_pct = 35;
+		w->w_post = 45; w->faults_pct = 35; w->w_quit = 5;
 	} else if (!strcmp(prop, "C15")) {
 		w->faults_pct = 0; w->eintr_pct = 0;	/* added by the enumerator */
 	}
